@@ -157,7 +157,10 @@ func ruleC09R2(c *Ctx) {
 		return ok && g.Pkg.Pkg.Path() == modPath+"/defs" && g.Name() == "InputLogMaxMessageBytes"
 	}
 	var cuts []*ssa.Slice
-	eachInstr(fn, func(in ssa.Instruction) {
+	calleeIs := func(p FnPred) func(ssa.CallInstruction) bool {
+		return func(s ssa.CallInstruction) bool { f := s.Common().StaticCallee(); return f != nil && p(f) }
+	}
+	c.eachInstrR(fn, func(in ssa.Instruction) {
 		if sl, ok := in.(*ssa.Slice); ok && sl.High != nil && mentions(sl.High, isMax) {
 			cuts = append(cuts, sl)
 		}
@@ -165,7 +168,7 @@ func ruleC09R2(c *Ctx) {
 	c.floor("C09.R2", "truncations to InputLogMaxMessageBytes", len(cuts), 1)
 	// the final store of the message field
 	var sets []ssa.CallInstruction
-	for _, s := range c.callsTo(fn, anchorPred(aLocSet)) {
+	for _, s := range c.sitesWhereR(fn, calleeIs(anchorPred(aLocSet))) {
 		if fieldOf(s.Common().Args[0]) == "input/syslogparser.syslogParser.fieldLogLocator" {
 			sets = append(sets, s)
 		}
@@ -174,17 +177,17 @@ func ruleC09R2(c *Ctx) {
 		c.bad("C09.R2", fn, "message field store", fn.Pos(), "no fieldLogLocator.Set call found")
 		return
 	}
-	over := c.callsTo(fn, anchorPred(aOnOverflow))
+	over := c.sitesWhereR(fn, calleeIs(anchorPred(aOnOverflow)))
 	for _, cut := range cuts {
 		// guarded by len(x) > max
 		okG := false
-		eachInstr(fn, func(in ssa.Instruction) {
+		eachInstr(cut.Parent(), func(in ssa.Instruction) {
 			bo, ok := in.(*ssa.BinOp)
 			if !ok || (bo.Op != token.GTR && bo.Op != token.GEQ) || !mentions(bo.Y, isMax) {
 				return
 			}
 			for b, si := range boolEdges(bo, true) {
-				if c.onlyViaEdge(fn, cut, b, si) {
+				if c.onlyViaEdge(cut.Parent(), cut, b, si) {
 					okG = true
 				}
 			}
@@ -193,13 +196,14 @@ func ruleC09R2(c *Ctx) {
 		// overflow counted on the way to the cut
 		c.checkOrder("C09.R2", fn, "onOverflow", callInstrSet(over), "cut to InputLogMaxMessageBytes", map[ssa.Instruction]bool{cut: true})
 		// cleaned before it is stored
-		q := &PathQ{P: c.P, Barrier: func(in ssa.Instruction) bool { return isCallTo(in, c.P, anchorPred(aCleanUTF8)) }}
+		q := c.pq(fn)
+		q.Barrier = func(in ssa.Instruction) bool { return isCallTo(in, c.P, anchorPred(aCleanUTF8)) }
 		hit, tr := q.Reach(after(cut), func(in ssa.Instruction) bool { return callInstrSet(sets)[in] })
 		c.check(hit == nil, "C09.R2", fn, "a cut message is UTF-8-cleaned before it is stored", cut.Pos(),
 			"every path from the cut to the message store passes util.CleanUTF8", "a message cut at the byte limit can be stored without UTF-8 clean-up (a multi-byte sequence split at the limit stays in the record): "+c.P.trailString(tr))
 	}
 	// the cleaner's input derives from the cut and its output is what is stored
-	for _, s := range c.callsTo(fn, anchorPred(aCleanUTF8)) {
+	for _, s := range c.sitesWhereR(fn, calleeIs(anchorPred(aCleanUTF8))) {
 		okIn := false
 		for _, cut := range cuts {
 			if mentions(s.Common().Args[0], func(v ssa.Value) bool { return v == ssa.Value(cut) }) {
@@ -209,13 +213,16 @@ func ruleC09R2(c *Ctx) {
 		// the argument may also be the phi merging cut / uncut
 		if !okIn {
 			okIn = mentions(s.Common().Args[0], func(v ssa.Value) bool {
+				if prm, isP := v.(*ssa.Parameter); isP && prm.Parent() != fn && c.helpersOf(fn)[prm.Parent()] {
+					return true // the message as handed to a private helper of Parse
+				}
 				_, isPhi := v.(*ssa.Phi)
 				return isPhi
 			})
 		}
 		okOut := false
 		for _, st := range sets {
-			if mentions(st.Common().Args[2], func(v ssa.Value) bool { return v == s.Value() }) {
+			if c.mentionsR(fn, st.Common().Args[2], func(v ssa.Value) bool { return v == s.Value() }, 0) {
 				okOut = true
 			}
 		}
